@@ -1,4 +1,244 @@
 import PbVerif.Model.JsonLex
+import PbVerif.Lemmas.JsonLexNumber
+import PbVerif.Lemmas.JsonLexInt
+import PbVerif.Lemmas.JsonLexQuoted
+/-
+C22 — JSON scalar values decode exactly (integers).
+
+Statements are about `JsonLex.*` (Model/JsonLex.lean): `parseNumberParts`, `normalizeToIntString`,
+`Token.Int/Uint` (`tokenInt/tokenUint`) and `unmarshalInt/unmarshalUint` of protojson, mirrored from
+the Go code and tied to it by the `jsonlex` harness (math/big oracle).  Values are exact: an RFC 8259
+number literal `[-] int [.frac] [e exp]` denotes `±(int.frac)·10^exp` with `exp` an integer of any
+size (`LitValue`, stated without division).  Floats are not modelled (Lean's `Float` is opaque to the
+kernel; `strconv.ParseFloat` is tied by the harness against math/big correct rounding only).
+-/
 namespace C22
-open JsonLex
+open JsonLex JsonLex.RFC
+
+/-! ## normalizeToIntString -/
+
+/-- **normalize_iff.**  For well-formed parts (what `parseNumberParts` produces) and any integer `v`:
+`normalizeToIntString` returns a decimal spelling of `v` (optional `-`, digits, possibly leading zeros)
+iff `v` is the value `±intp.frac·10^exp` of the parts **and** the code's size guards hold
+(`PartsGuard`: unless intp and frac are both empty, `exp` fits an int32 and, when `exp ≥ 0`,
+`len(intp) + exp ≤ 20`).  In particular it fails on every non-integral value. -/
+theorem normalize_iff (p : NumberParts) (hwf : PartsWF p) (v : Int) :
+    (∃ s, normalizeToIntString p = some s ∧ SpellsInt s v) ↔ PartsValue p v ∧ PartsGuard p :=
+  JsonLex.normalize_iff p hwf v
+
+/-- guarded direction on its own (`…_partial` of DESIGN.md §6 C22) -/
+theorem normalize_partial (p : NumberParts) (hwf : PartsWF p) (v : Int) (hv : PartsValue p v) (hg : PartsGuard p) :
+    ∃ s, normalizeToIntString p = some s ∧ SpellsInt s v :=
+  (normalize_iff p hwf v).2 ⟨hv, hg⟩
+
+/-- non-integral values are rejected whatever the guard says -/
+theorem normalize_none_of_nonintegral (p : NumberParts) (hwf : PartsWF p) (h : ¬ ∃ v, PartsValue p v) :
+    normalizeToIntString p = none := by
+  cases hn : normalizeToIntString p with
+  | none => rfl
+  | some s =>
+    have := normalize_core p hwf
+    rw [hn] at this
+    obtain ⟨v, hv, _, _⟩ := this
+    exact absurd ⟨v, hv⟩ h
+
+/-- the parts of `0.000001e21` -/
+def witness19 : NumberParts :=
+  { neg := false, intp := [], frac := [0x30#8, 0x30#8, 0x30#8, 0x30#8, 0x30#8, 0x31#8], exp := [0x32#8, 0x31#8] }
+
+theorem witness19_wf : PartsWF witness19 := by
+  refine ⟨by simp [witness19, AllDigits], by simp [witness19], ?_, ?_, ?_⟩
+  · intro d hd; simp [witness19] at hd; rcases hd with rfl | rfl <;> decide
+  · intro a d h
+    have : (witness19.frac).getLast? = some d := by rw [h]; simp
+    simp [witness19] at this; rw [← this]; decide
+  · exact ExpStr.some [] [0x32#8, 0x31#8] SignOpt.none (by simp) (by
+      intro d hd; simp at hd; rcases hd with rfl | rfl <;> decide)
+
+theorem witness19_value : PartsValue witness19 1000000000000000 := by
+  unfold PartsValue
+  have hk : (0 : Int) ≤ partsK witness19 := by decide
+  rw [decValue_nonneg hk]; decide
+
+/- FULL (unguarded) STATEMENT — *false of the current code* (DESIGN.md finding 19):
+     PartsWF p → PartsValue p v → ∃ s, normalizeToIntString p = some s ∧ SpellsInt s v            -/
+
+/-- The unguarded statement is false: the parts of `0.000001e21` have the integer value 10^15 but
+`normalizeToIntString` rejects them (`intpSize + exp = 0 + 21 > 20`; the guard ignores that the
+fraction starts with five zeros). -/
+theorem normalize_unguarded_false :
+    ¬ (∀ (p : NumberParts) (v : Int), PartsWF p → PartsValue p v →
+        ∃ s, normalizeToIntString p = some s ∧ SpellsInt s v) := by
+  intro h
+  obtain ⟨s, hs, _⟩ := h witness19 _ witness19_wf witness19_value
+  have hnone : normalizeToIntString witness19 = none := by decide
+  rw [hnone] at hs; cases hs
+
+/-! ## Integer fields: number tokens -/
+
+/-- `raw` is an RFC 8259 number literal and denotes the integer `v` -/
+def Denotes (raw : Bytes) (v : Int) : Prop :=
+  ∃ m i f e, raw = m ++ (i ++ (f ++ e)) ∧ MinusOpt m ∧ IntPart i ∧ FracOpt f ∧ ExpOpt e ∧ LitValue m i f e v
+
+theorem intLit_denotes {raw : Bytes} {v : Int} (h : IntLit raw v) : Denotes raw v := by
+  obtain ⟨m, i, f, e, h1, hm, hi, hf, he, hv, _⟩ := h
+  exact ⟨m, i, f, e, h1, hm, hi, hf, he, hv⟩
+
+/-- **int_accept (signed, number token).**  For a token whose raw bytes are an RFC 8259 number:
+`Token.Int(bits)` returns `v` iff the literal denotes the integer `v`, the size guards hold
+(`IntLit` = `Denotes` ∧ `LitGuard`) and `-2^(bits-1) ≤ v < 2^(bits-1)`.  Non-integral literals and
+out-of-range values are rejected (`int_reject`). -/
+theorem int_accept (bits : Nat) (raw : Bytes) (hnum : Number raw) (v : Int) :
+    unmarshalInt bits (.number raw) = some v ↔
+      IntLit raw v ∧ -((2 : Int) ^ (bits - 1)) ≤ v ∧ v < (2 : Int) ^ (bits - 1) :=
+  tokenInt_iff bits raw hnum v
+
+/-- **int_accept (unsigned, number token)**: `Token.Uint(bits)` returns `n` iff the literal denotes
+`n` (so `-0`, `-0.0e5` give 0 and every other negative literal is rejected), the guards hold and `n < 2^bits`. -/
+theorem uint_accept (bits : Nat) (raw : Bytes) (hnum : Number raw) (n : Nat) :
+    unmarshalUint bits (.number raw) = some n ↔ IntLit raw (n : Int) ∧ (n : Int) < (2 : Int) ^ bits :=
+  tokenUint_iff bits raw hnum n
+
+theorem int32_accept (raw : Bytes) (hnum : Number raw) (v : Int) :
+    unmarshalInt 32 (.number raw) = some v ↔ IntLit raw v ∧ -2147483648 ≤ v ∧ v ≤ 2147483647 := by
+  rw [int_accept 32 raw hnum v]; constructor <;> rintro ⟨h1, h2, h3⟩ <;> exact ⟨h1, by omega, by omega⟩
+
+theorem int64_accept (raw : Bytes) (hnum : Number raw) (v : Int) :
+    unmarshalInt 64 (.number raw) = some v ↔
+      IntLit raw v ∧ -9223372036854775808 ≤ v ∧ v ≤ 9223372036854775807 := by
+  rw [int_accept 64 raw hnum v]; constructor <;> rintro ⟨h1, h2, h3⟩ <;> exact ⟨h1, by omega, by omega⟩
+
+theorem uint32_accept (raw : Bytes) (hnum : Number raw) (n : Nat) :
+    unmarshalUint 32 (.number raw) = some n ↔ IntLit raw (n : Int) ∧ n ≤ 4294967295 := by
+  rw [uint_accept 32 raw hnum n]; constructor <;> rintro ⟨h1, h2⟩ <;> exact ⟨h1, by omega⟩
+
+theorem uint64_accept (raw : Bytes) (hnum : Number raw) (n : Nat) :
+    unmarshalUint 64 (.number raw) = some n ↔ IntLit raw (n : Int) ∧ n ≤ 18446744073709551615 := by
+  rw [uint_accept 64 raw hnum n]; constructor <;> rintro ⟨h1, h2⟩ <;> exact ⟨h1, by omega⟩
+
+/-- what is not an in-range integer is rejected -/
+theorem int_reject (bits : Nat) (raw : Bytes) (hnum : Number raw)
+    (h : ¬ ∃ v, Denotes raw v ∧ -((2 : Int) ^ (bits - 1)) ≤ v ∧ v < (2 : Int) ^ (bits - 1)) :
+    unmarshalInt bits (.number raw) = none := by
+  cases hr : unmarshalInt bits (.number raw) with
+  | none => rfl
+  | some v =>
+    obtain ⟨h1, h2⟩ := (int_accept bits raw hnum v).1 hr
+    exact absurd ⟨v, intLit_denotes h1, h2⟩ h
+
+/-- the value is unique: two results for the same literal agree -/
+theorem denotes_unique {raw : Bytes} {v w : Int} (hv : IntLit raw v) (hw : IntLit raw w) : v = w := by
+  obtain ⟨m, i, f, e, rfl, hm, hi, hf, he, hvv, hg⟩ := hv
+  have hc := getIntStr_core hm hi hf he
+  cases hgs : getIntStr (m ++ (i ++ (f ++ e))) with
+  | none => rw [hgs] at hc; exact absurd ⟨v, hvv, hg⟩ hc
+  | some s =>
+    rw [hgs] at hc
+    obtain ⟨u, hu, _, hs⟩ := hc
+    have e1 : u = v := DecValue.unique hu hvv
+    obtain ⟨m', i', f', e', heq, hm', hi', hf', he', hww, hg'⟩ := hw
+    have hc' := getIntStr_core hm' hi' hf' he'
+    rw [← heq, hgs] at hc'
+    obtain ⟨u', hu', _, hs'⟩ := hc'
+    have e2 : u' = w := DecValue.unique hu' hww
+    rw [← e1, ← e2]; exact hs.unique hs'
+
+/- FULL STATEMENT for *every token the decoder produces* (`∃ rest, parseNumber (raw ++ rest) = some raw.length`
+   instead of `Number raw`) — false of the current code (DESIGN.md finding 4b).                    -/
+
+/-- `1e` followed by `}` is made a Number token and `Token.Int(32)` returns 1 for it, but `1e` is not
+an RFC number (so it denotes nothing). -/
+theorem int_accept_token_false :
+    ¬ (∀ (raw rest : Bytes) (v : Int), parseNumber (raw ++ rest) = some raw.length →
+        unmarshalInt 32 (.number raw) = some v → Number raw) := by
+  intro h
+  have h1 := h [0x31#8, 0x65#8] [0x7d#8] 1 (by decide) (by decide)
+  have h2 := (JsonLex.parseNumberFixed_exact [0x31#8, 0x65#8] 2).2 ⟨_, [], by simp, rfl, DelimOK.nil, h1⟩
+  revert h2; decide
+
+/- FULL (unguarded) STATEMENT — false of the current code (DESIGN.md finding 19):
+     Denotes raw v → -2^63 ≤ v < 2^63 → unmarshalInt 64 (.number raw) = some v                    -/
+
+/-- `0.000001e21` -/
+def lit19 : Bytes := [0x30#8, 0x2e#8, 0x30#8, 0x30#8, 0x30#8, 0x30#8, 0x30#8, 0x31#8, 0x65#8, 0x32#8, 0x31#8]
+
+theorem lit19_denotes : Denotes lit19 1000000000000000 := by
+  refine ⟨[], [0x30#8], [0x2e#8, 0x30#8, 0x30#8, 0x30#8, 0x30#8, 0x30#8, 0x31#8], [0x65#8, 0x32#8, 0x31#8], rfl,
+    MinusOpt.none, IntPart.zero, ?_, ?_, ?_⟩
+  · exact FracOpt.some _ _ (by decide) (by intro d hd; simp at hd; rcases hd with rfl | rfl <;> decide)
+  · exact ExpOpt.some 0x65#8 [] 0x32#8 [0x31#8] (Or.inl rfl) SignOpt.none (by decide)
+      (by intro d hd; simp at hd; subst hd; decide)
+  · unfold LitValue
+    have hk : (0 : Int) ≤ expInt (List.drop 1 [0x65#8, 0x32#8, 0x31#8]) -
+        ((List.drop 1 [0x2e#8, 0x30#8, 0x30#8, 0x30#8, 0x30#8, 0x30#8, 0x31#8]).length : Int) := by decide
+    rw [decValue_nonneg hk]; decide
+
+theorem int_unguarded_false :
+    ¬ (∀ (raw : Bytes) (v : Int), Denotes raw v → -((2 : Int) ^ 63) ≤ v → v < (2 : Int) ^ 63 →
+        unmarshalInt 64 (.number raw) = some v) := by
+  intro h
+  have := h lit19 _ lit19_denotes (by decide) (by decide)
+  revert this; decide
+
+/-! ## Integer fields: quoted numbers -/
+
+/-- the explicit `strings.TrimSpace` comparison is implied by the rest of the check -/
+theorem quoted_trim_redundant (s : Bytes) (h : Number s) : trimSpaceUnchanged s = true := by
+  obtain ⟨c, t, rfl, hc⟩ := number_head h
+  obtain ⟨a, l, hal, hl⟩ := number_last_digit h
+  exact trimSpaceUnchanged_of_number hal hc hl
+
+/-- **int_accept (signed, quoted).**  A JSON string with content `s` is accepted for a signed integer
+field and yields `v` iff `s` is — from its first to its last byte, no surrounding or inner space —
+an RFC 8259 number that denotes `v`, the guards hold and `v` is in range.  (No hypothesis: the
+dangling-exponent forms of finding 4 cannot occur at the end of input.) -/
+theorem int_accept_quoted (bits : Nat) (s : Bytes) (v : Int) :
+    unmarshalInt bits (.string s) = some v ↔
+      IntLit s v ∧ -((2 : Int) ^ (bits - 1)) ≤ v ∧ v < (2 : Int) ^ (bits - 1) := by
+  simp only [unmarshalInt]
+  constructor
+  · intro h
+    cases hq : quotedNumber s with
+    | none => rw [hq] at h; simp at h
+    | some raw =>
+      rw [hq] at h
+      obtain ⟨rfl, hnum⟩ := (quotedNumber_iff s raw).1 hq
+      exact (tokenInt_iff bits raw hnum v).1 h
+  · rintro ⟨hl, hr⟩
+    have hq := (quotedNumber_iff s s).2 ⟨rfl, hl.number⟩
+    rw [hq]
+    exact (tokenInt_iff bits s hl.number v).2 ⟨hl, hr⟩
+
+/-- **int_accept (unsigned, quoted)** -/
+theorem uint_accept_quoted (bits : Nat) (s : Bytes) (n : Nat) :
+    unmarshalUint bits (.string s) = some n ↔ IntLit s (n : Int) ∧ (n : Int) < (2 : Int) ^ bits := by
+  simp only [unmarshalUint]
+  constructor
+  · intro h
+    cases hq : quotedNumber s with
+    | none => rw [hq] at h; simp at h
+    | some raw =>
+      rw [hq] at h
+      obtain ⟨rfl, hnum⟩ := (quotedNumber_iff s raw).1 hq
+      exact (tokenUint_iff bits raw hnum n).1 h
+  · rintro ⟨hl, hr⟩
+    have hq := (quotedNumber_iff s s).2 ⟨rfl, hl.number⟩
+    rw [hq]
+    exact (tokenUint_iff bits s hl.number n).2 ⟨hl, hr⟩
+
+/-- tokens that are neither numbers nor strings are rejected -/
+theorem int_reject_other (bits : Nat) : unmarshalInt bits .other = none ∧ unmarshalUint bits .other = none :=
+  ⟨rfl, rfl⟩
+
+/-- quoted content with surrounding space is rejected -/
+example : unmarshalInt 32 (.string [0x20#8, 0x31#8]) = none ∧ unmarshalInt 32 (.string [0x31#8, 0x20#8]) = none ∧
+    unmarshalInt 32 (.string [0x31#8]) = some 1 := by decide
+
+/-- the forms the property statement names: `1e2`, `100.0`, `1.0e+2`, `0.1e1`, `12345e-2` (not integral) -/
+example : unmarshalInt 32 (.number [0x31#8, 0x65#8, 0x32#8]) = some 100 ∧
+    unmarshalInt 32 (.number [0x31#8, 0x30#8, 0x30#8, 0x2e#8, 0x30#8]) = some 100 ∧
+    unmarshalInt 32 (.number [0x31#8, 0x2e#8, 0x30#8, 0x65#8, 0x2b#8, 0x32#8]) = some 100 ∧
+    unmarshalInt 32 (.number [0x30#8, 0x2e#8, 0x31#8, 0x65#8, 0x31#8]) = some 1 ∧
+    unmarshalInt 32 (.number [0x31#8, 0x32#8, 0x33#8, 0x34#8, 0x35#8, 0x65#8, 0x2d#8, 0x32#8]) = none := by decide
+
 end C22
